@@ -74,6 +74,11 @@ class C02(Harness):
     def observe(self, unit, inp):
         r = P.run_load(XML[unit['schema']], self.lines(unit, inp))
         if r[0] == 'ok':
+            # every slot holds its own value: no list / dict object may sit at two places of the tree
+            # (a converted default handed to two sections would be shared by them)
+            shared = _shared_containers(r[1])
+            if shared:
+                return ('ok', P.walk(r[1]), ('SHARED-MUTABLE-VALUE', shared))
             return ('ok', P.walk(r[1]))
         if r[0] == 'reject':
             return ('reject',)
@@ -95,6 +100,29 @@ class C02(Harness):
 
     def nontrivial(self, unit, inp, real):
         return real[0] == 'ok'
+
+
+def _shared_containers(cfg):
+    from ZConfig.matcher import SectionValue
+    from ..dtsupport import Wrapped
+    seen = {}
+    dup = []
+
+    def rec(v, path):
+        if isinstance(v, Wrapped):
+            return rec(v.value, path)
+        if isinstance(v, SectionValue):
+            for a in v.getSectionAttributes():
+                rec(getattr(v, a), path + '.' + a)
+        elif isinstance(v, (list, dict)):
+            if id(v) in seen:
+                dup.append((seen[id(v)], path))
+            else:
+                seen[id(v)] = path
+            for i, x in enumerate(v.values() if isinstance(v, dict) else v):
+                rec(x, '%s[%d]' % (path, i))
+    rec(cfg, '')
+    return dup
 
 
 HARNESS = C02()
